@@ -15,7 +15,7 @@ theorem Base.popTake (H : OHyp E rank Good) {s : St U π} (hb : Base E s) (nt : 
   obtain ⟨hm, hsub⟩ := mem_of_pop _ _ _ _ h
   have hs1 := ((hb.sinv.setHeap_sub nt h' hsub).setSucc nt key e.2 (hb.sinv.heap_seen _ _ hm)).setPred nt e.2 key
   obtain ⟨n1, st⟩ := hb.ninv.popTake nt key e h' h hkey
-  refine ⟨⟨hs1, n1, ?_, hb.nodel⟩, st,
+  refine ⟨⟨hs1, n1, ?_, hb.delF⟩, st,
     ((only_setHeap s nt h').trans (only_setSucc _ nt key e.2)).trans (only_setPred _ nt e.2 key)⟩
   exact (hb.hinv.pop_on H hb.sinv nt e h' h).1
 
@@ -63,7 +63,10 @@ theorem NTInv.popTake (H : OHyp E rank Good) {s : St U π} (hb : Base E s) {nt :
     | some k =>
       obtain ⟨k', hk'⟩ := hkp k rfl
       exact Or.inr ⟨(k', k), AList.lookup_some_mem hk', rfl⟩
-  refine ⟨⟨hn.init, ?_, ?_, ?_, ?_, ?_, ?_⟩, ⟨key, by rw [hsucc]; exact AList.lookup_insert_self _ _ _⟩, ?_, ?_⟩
+  have hstab : Stable s (s.popTake nt key e h') := (hb.ninv.popTake nt key e h' h hkey).2
+  refine ⟨⟨hn.init, ?_, ?_, ?_, ?_, ?_, ?_, fun F v w hm a ha => by
+      obtain ⟨x, hx⟩ := hn.closed F v w hm a ha
+      exact ⟨x, hstab _ _ _ hx⟩⟩, ⟨key, by rw [hsucc]; exact AList.lookup_insert_self _ _ _⟩, ?_, ?_⟩
   · rw [hsucc, insert_of_lookup_none key e.2 _ hkey, hkeyEnd]
     exact chainL_snoc _ none e.2 hn.chain
   · rw [hsucc, insert_of_lookup_none key e.2 _ hkey]
@@ -176,11 +179,69 @@ theorem CInv.popTake {s : St U π} (hb : Base E s) {nt : UNT U} (hc : CInv E ran
       · exact Or.inl ⟨q, by rw [hsucc sj hne]; exact h1, h2⟩
       · exact Or.inr ⟨h1, by rw [hheapo sj hne]; exact h2, by rw [hsucc sj hne]; exact h3⟩
 
+/-- a popped program that is in `deleted` is skipped: the invariants of the state -/
+theorem Base.popDrop (H : OHyp E rank Good) {s : St U π} (hb : Base E s) (nt : UNT U) (e : π × Prog) (h' : List (π × Prog))
+    (h : Heapq.pop (ltE E.ops) (s.heapOf nt) = some (e, h')) :
+    Base E (s.setHeap nt h') ∧ Stable s (s.setHeap nt h') ∧ Only nt s (s.setHeap nt h') :=
+  ⟨⟨hb.sinv.setHeap_sub _ _ (mem_of_pop _ _ _ _ h).2, hb.ninv.popDrop nt e h' h, (hb.hinv.pop_on H hb.sinv nt e h' h).1,
+    hb.delF⟩, Stable.refl _, only_setHeap s nt h'⟩
+
+theorem NTInv.popDrop (H : OHyp E rank Good) {s : St U π} (hb : Base E s) {nt : UNT U} (hn : NTInv E s nt)
+    (e : π × Prog) (h' : List (π × Prog)) (h : Heapq.pop (ltE E.ops) (s.heapOf nt) = some (e, h'))
+    (hlive : s.succOf nt ≠ []) :
+    NTInv E (s.setHeap nt h') nt ∧ (∀ x, Popped (s.setHeap nt h') nt x → LE E nt x e.2) := by
+  obtain ⟨hm, hsub⟩ := mem_of_pop _ _ _ _ h
+  have hheap : (s.setHeap nt h').heapOf nt = h' := by rw [St.heapOf_setHeap, if_pos rfl]
+  refine ⟨⟨hn.init, hn.chain, hn.keys_nodup, ?_, hn.args, ?_, hn.sorted, hn.closed⟩, fun x hx => hn.heap_le x hx e hm⟩
+  · obtain ⟨m, h1, h2⟩ := hn.first
+    refine ⟨m, h1, Or.inl ?_⟩
+    rcases h2 with h2 | ⟨h2, _⟩
+    · exact h2
+    · exact absurd h2 hlive
+  · intro x hx e' he'
+    rw [hheap] at he'
+    exact hn.heap_le x hx e' (hsub e' he')
+
+theorem CInv.popDrop {s : St U π} (hb : Base E s) {nt : UNT U} (hc : CInv E rank s nt none 0)
+    (e : π × Prog) (h' : List (π × Prog)) (h : Heapq.pop (ltE E.ops) (s.heapOf nt) = some (e, h'))
+    (hd : s.deleted.contains e.2 = true) (i : Nat) (hi : ∀ F args, e.2 = Tree.node F args → args.length ≤ i) :
+    CInv E rank (s.setHeap nt h') nt (some e.2) i := by
+  have hperm := pop_progs h
+  have hprogs : (s.setHeap nt h').heapProgs nt = h'.map (·.2) := by
+    unfold St.heapProgs; rw [St.heapOf_setHeap, if_pos rfl]
+  have hheapo : ∀ sj, sj ≠ nt → (s.setHeap nt h').heapOf sj = s.heapOf sj := by
+    intro sj hne; rw [St.heapOf_setHeap, if_neg hne]
+  refine ⟨hc.keyed, hc.initial, ?_, ?_⟩
+  · intro p hp
+    rcases hc.cover p hp with hh | hpp | hrej
+    · rcases List.mem_cons.mp (hperm.subset hh) with rfl | hm
+      · exact Or.inr (Or.inr (hb.delF _ (by simpa using hd)))
+      · left; rw [hprogs]; exact hm
+    · exact Or.inr (Or.inl hpp)
+    · exact Or.inr (Or.inr hrej)
+  · intro F args v hp hk j aj sj haj hsj hr hex
+    have hne : sj ≠ nt := by intro e'; subst e'; exact Nat.lt_irrefl _ hr
+    by_cases heq : e.2 = Tree.node F args
+    · exfalso
+      have h1 := hex (by rw [heq])
+      have h2 := hi F args heq
+      have h3 : j < args.length := (List.getElem?_eq_some_iff.mp haj).1
+      omega
+    · have hp0 : Proc s nt (Tree.node F args) := by
+        refine ⟨hp.1, fun hin => ?_⟩
+        rcases List.mem_cons.mp (hperm.subset hin) with h1 | h1
+        · exact heq h1.symm
+        · apply hp.2; rw [hprogs]; exact h1
+      rcases hc.succs F args v hp0 hk j aj sj haj hsj hr (by intro e'; cases e') with ⟨q, h1, h2⟩ | ⟨h1, h2, h3⟩
+      · exact Or.inl ⟨q, h1, h2⟩
+      · exact Or.inr ⟨h1, by rw [hheapo sj hne]; exact h2, h3⟩
+
 /-- **the loop body of `__add_successors_to_heap__`** keeps the order invariant of `nt` -/
 theorem NTInv.pushStep (H : OHyp E rank Good) {s1 s3 : St U π} (hb : Base E s1) {nt : UNT U} (hn : NTInv E s1 nt)
     {F : Sym} {args : List Prog} {v : List (UNT U)} {i : Nat} {ai : Prog} {si : UNT U} {r : Option Prog}
     (hko : KeyOK E nt F args v) (hkey : AList.lookup (nt, Tree.node F args) s1.keys = some v)
-    (hpp : Popped s1 nt (Tree.node F args)) (hlatest : ∀ x, Popped s1 nt x → LE E nt x (Tree.node F args))
+    (hprogseen : Tree.node F args ∈ s1.seenOf nt) (hlive : s1.succOf nt ≠ [])
+    (hlatest : ∀ x, Popped s1 nt x → LE E nt x (Tree.node F args))
     (hai : args[i]? = some ai) (hsi : v[i]? = some si) (hne : si ≠ nt)
     (hr : ∀ q, r = some q → Popped s1 si q ∧ LE E si ai q)
     (hc : CInv E rank s1 nt (some (Tree.node F args)) (i + 1))
@@ -188,7 +249,8 @@ theorem NTInv.pushStep (H : OHyp E rank Good) {s1 s3 : St U π} (hb : Base E s1)
     (hr2 : r = none → s1.initS.contains si = true ∧ s1.heapOf si = [] ∧ AList.lookup (some ai) (s1.succOf si) = none)
     (hp : pushStep E s1 F args nt v i r = some s3) :
     Base E s3 ∧ NTInv E s3 nt ∧ s3.succOf nt = s1.succOf nt ∧ Only nt s1 s3 ∧ Stable s1 s3 ∧
-      AList.lookup (nt, Tree.node F args) s3.keys = some v ∧ CInv E rank s3 nt (some (Tree.node F args)) i := by
+      AList.lookup (nt, Tree.node F args) s3.keys = some v ∧ CInv E rank s3 nt (some (Tree.node F args)) i ∧
+      (∀ p, p ∈ s1.seenOf nt → p ∈ s3.seenOf nt) := by
   have hk := H.ghyp.kway
   -- the position `i` is done when nothing is pushed
   have hcstay : SuccDone s1 nt F args i ai si → CInv E rank s1 nt (some (Tree.node F args)) i := by
@@ -211,8 +273,8 @@ theorem NTInv.pushStep (H : OHyp E rank Good) {s1 s3 : St U π} (hb : Base E s1)
       omega
   have hstay : SuccDone s1 nt F args i ai si → Base E s1 ∧ NTInv E s1 nt ∧ s1.succOf nt = s1.succOf nt ∧ Only nt s1 s1 ∧
       Stable s1 s1 ∧ AList.lookup (nt, Tree.node F args) s1.keys = some v ∧
-      CInv E rank s1 nt (some (Tree.node F args)) i :=
-    fun hdone => ⟨hb, hn, rfl, Only.refl nt s1, Stable.refl s1, hkey, hcstay hdone⟩
+      CInv E rank s1 nt (some (Tree.node F args)) i ∧ (∀ p, p ∈ s1.seenOf nt → p ∈ s1.seenOf nt) :=
+    fun hdone => ⟨hb, hn, rfl, Only.refl nt s1, Stable.refl s1, hkey, hcstay hdone, fun _ h => h⟩
   unfold UHS.pushStep at hp
   cases r with
   | none => simp only [Option.some.injEq] at hp; subst hp; exact hstay (Or.inr (hr2 rfl))
@@ -265,13 +327,12 @@ theorem NTInv.pushStep (H : OHyp E rank Good) {s1 s3 : St U π} (hb : Base E s1)
           intro e he
           rw [hpb, St.heapOf_setHeap, if_pos rfl, hcs.heapOf] at he
           exact List.mem_cons.mp ((Heapq.push_perm _ _ _).subset he)
-        have hprogseen : Tree.node F args ∈ s1.seenOf nt := hpp.seen hb.sinv
         have hnp_ne : Tree.node F (args.set i q) ≠ Tree.node F args := fun e => hnew' (e ▸ hprogseen)
         have hPop3 : ∀ nt' x, Popped (pushBoth E s2 nt pr (Tree.node F (args.set i q))) nt' x ↔ Popped s1 nt' x := by
           intro nt' x; unfold Popped; rw [hsucc3]
-        refine ⟨⟨hs3, n3, hh3, by rw [hpb]; obtain ⟨c, rfl⟩ := hcs; exact hb.nodel⟩, ⟨?_, ?_, ?_, ?_, ?_, ?_, ?_⟩, hsucc3 nt,
+        refine ⟨⟨hs3, n3, hh3, by rw [hpb]; obtain ⟨c, rfl⟩ := hcs; exact hb.delF⟩, ⟨?_, ?_, ?_, ?_, ?_, ?_, ?_, ?_⟩, hsucc3 nt,
           (((only_addSeen s1 nt _).trans (only_setKey _ nt _ v)).trans (only_cacheStep hcs nt)).trans
-            (only_pushBoth E hk _ nt pr _), st3, ?_, ?_⟩
+            (only_pushBoth E hk _ nt pr _), st3, ?_, ?_, fun p hp => (hseen3 p).mpr (Or.inl hp)⟩
         · rw [hpb]; obtain ⟨c, rfl⟩ := hcs; exact hn.init
         · rw [hsucc3]; exact hn.chain
         · rw [hsucc3]; exact hn.keys_nodup
@@ -280,9 +341,7 @@ theorem NTInv.pushStep (H : OHyp E rank Good) {s1 s3 : St U π} (hb : Base E s1)
           rw [hsucc3]
           rcases h2 with h2 | ⟨h2, _⟩
           · exact h2
-          · obtain ⟨k, hk'⟩ := hpp
-            rw [h2] at hk'
-            cases hk'
+          · exact absurd h2 hlive
         · intro F' kids v' hseen hk' j aj sj haj hsj
           rw [hPop3]
           rw [hkeys3, AList.lookup_insert] at hk'
@@ -311,6 +370,9 @@ theorem NTInv.pushStep (H : OHyp E rank Good) {s1 s3 : St U π} (hb : Base E s1)
         · intro k x hk'
           rw [hsucc3] at hk'
           exact hn.sorted k x hk'
+        · intro F' v' w' hm' a ha
+          rw [hsucc3]
+          exact hn.closed F' v' w' hm' a ha
         · rw [hkeys3, AList.lookup_insert, if_neg (by intro e; exact hnp_ne (congrArg Prod.snd e).symm)]
           exact hkey
         · -- the completeness invariant
